@@ -53,6 +53,8 @@ class Report:
 
     def gen_error(self, g):
         self.gen_errors.append(g)
+        for f in g.get("functions", []):
+            self.functions.setdefault(f["qualname"], f)
 
     def set_obligations(self, obs, results, covers):
         self.obs = obs
@@ -156,6 +158,10 @@ class Report:
                 self._failure(name, None, None, known, match_known, no_input=True, solver_out=solver_out)
             else:
                 self.undecided.append({"obligation": name, "status": r.status, "log": r.log})
+                if os.environ.get("VERIF_DEBUG") and r.model is not None:
+                    with open("/tmp/verif_model_%d.txt" % len(self.undecided), "w") as f:
+                        f.write(name + "\n" + "\n".join(str(c) for c in d.get("trace", [])) + "\n\n")
+                        f.write(json.dumps(r.model, indent=1, default=str) if isinstance(r.model, (dict, list)) else str(r.model))
         # vacuity
         for n, st in self.covers.items():
             if st == "unsat":
